@@ -16,6 +16,8 @@ mod c14;
 mod fi_fields;
 mod legacy_fields;
 mod c16;
+mod c12;
+mod c02;
 
 use std::io::{BufWriter, Write};
 
@@ -46,6 +48,8 @@ fn main() {
                 "C14" => c14::gen(tier, seed, &mut out),
                 "C16" => c16::gen(tier, seed, &mut out),
                 "C16path" => c16::gen_path(tier, seed, &mut out),
+                "C12" => c12::gen(tier, seed, &mut out),
+                "C02" => c02::gen(tier, seed, &mut out),
                 _ => {
                     eprintln!("unknown property {}", prop);
                     std::process::exit(2);
@@ -68,6 +72,18 @@ fn main() {
                 }
                 let input = line.split(" => ").next().unwrap();
                 let toks: Vec<&str> = input.split(' ').collect();
+                if toks[0] == "C12" {
+                    // events and number table are derived from the document: regenerate the whole line
+                    writeln!(out, "{}", c12::line_for(&common::unhex(toks[1]))).unwrap();
+                    continue;
+                }
+                if toks[0] == "C02" {
+                    // the glyph is regenerated from (seed, index); the whole line is derived from it
+                    if let Some(l) = c02::line_for(toks[1].parse().unwrap(), toks[2].parse().unwrap(), toks[3]) {
+                        writeln!(out, "{}", l).unwrap();
+                    }
+                    continue;
+                }
                 let obs = replay_one(&toks);
                 writeln!(out, "{} => {}", input, obs).unwrap();
             }
